@@ -118,6 +118,12 @@ func checkC02(c *CaseC02, fl *Fails) {
 		fl.Add("grid-limit", "%s: last row south edge %v != %v", id, vs[2].Lat(), -latLimit)
 	}
 
+	// the returned points belong to the caller: modifying them must not influence later queries
+	for i, v := range vs {
+		v.SetAlt(v.Alt()*3 + float64(i) + 1000.5)
+		_ = v.SetLon(-v.Lon() / 2)
+		_ = v.SetLat(v.Lat() / 3)
+	}
 	// centre = midpoint
 	cs, err := c02Query(c, b, enum.Center)
 	if err != nil || len(cs) != 1 {
@@ -149,6 +155,20 @@ func checkC02(c *CaseC02, fl *Fails) {
 		}
 	}
 
+	// and the vertex query itself is unaffected by the modified result of the first one (and of the centre)
+	_ = ct.SetLon(1)
+	ct.SetAlt(-1)
+	if again, err := c02Query(c, b, enum.Vertex); err != nil || len(again) != 8 {
+		fl.Add("result-aliasing", "%s: second vertex query fails (%v)", id, err)
+	} else {
+		for i, v := range again {
+			if math.Abs(v.Lon()-wantLon[i]) > lonBandDeg || !latOK(v.Lat(), wantLat[i], 1) || v.Alt() != wantAlt[i] {
+				fl.Add("result-aliasing", "%s: after the caller modified the points returned by the first vertex query, a second query returns vertex %d = (%v,%v,%v)", id, i, v.Lon(), v.Lat(), v.Alt())
+				break
+			}
+		}
+		vs = again
+	}
 	// shared faces are reported bit for bit by both neighbours
 	if b.X+1 < n {
 		e := b
